@@ -240,10 +240,19 @@ def applicable(core):
     return [f for f in FACTOR_ORDER if FACTORS[f][1](core)]
 
 
+def effective_extra(case):
+    """The switches of a case; --coalescent_init tree|constant is documented to need
+    --heights_init tree, which is therefore supplied with it."""
+    ex = {k: v for k, v in (case.get("extra") or {}).items() if v is not None}
+    if ex.get("coalescent_init") in ("tree", "constant") and "heights_init" not in ex:
+        ex["heights_init"] = "tree"
+    return ex
+
+
 def argv_of(case):
     """Command line (with the placeholder {FX} for the scratch directory)."""
     c = case
-    ex = dict(case.get("extra") or {})
+    ex = effective_extra(case)
     tree = "{FX}/ultra.nwk" if ex.get("dates") == "0" else "{FX}/time.nwk"
     a = [c["sub"]]
     if ex.get("poisson"):
@@ -678,7 +687,7 @@ MAXREL = [0.0]  # largest accepted relative deviation of an initial value (calib
 
 def check_init(case, dic):
     """Requested initial values (only explicit requests on the command line)."""
-    ex = case.get("extra") or {}
+    ex = effective_extra(case)
     fails = []
     n = 0
 
